@@ -32,6 +32,8 @@ CHECKS = {
          "for every enumerated (operator, function, algorithm) the action of the returned operator on 2-3 operands is compared with f(A)x computed from the reference eigendecomposition, plus sqrt-twice, pow(-1)-solves and integer-power identities"),
  "C10": ("11 operator families with prescribed simple spectra (self-adjoint definite / indefinite, real with conjugate pairs, complex, Diagonal, Triangular lower/upper, Identity) x sizes x ALL 1<=k<=n x {LM, SM} x 11 algorithm settings (caps n, n+2, default); eigmax / eigmin",
          "for every enumerated (family, n, k, which, algorithm) the returned values are compared as a multiset with the k extreme-modulus eigenvalues of the prescribed spectrum and every returned pair with the eigen-equation, independence and (self-adjoint input) orthonormality"),
+ "C16": ("m x n operators in {1..5}^2 plus tall/wide/large shapes, real and complex with prescribed singular values, structural kinds x ALL 1<=k<=min(m,n) x {LM, SM} x 4 svd algorithms; pinv on the same operators x 4 algorithms x 3-4 right-hand sides",
+         "for every enumerated (operator, k, which, algorithm) orthonormality of U and V, non-negativity of Sigma and the reconstruction (A itself or the requested rank-k part) are checked; pinv(A) b is compared with the minimum-norm least-squares solution from numpy.linalg.pinv of the reference"),
 }
 PENDING = {}
 props = [json.loads(l) for l in open(os.path.join(ROOT, "properties.jsonl"))]
